@@ -16,7 +16,9 @@ MANIFEST = dict(
           "page size 4096; offsets and lengths below 2^32 blocks; hints below the end of the bitmap area times 1.2"),
     technique="Lean 4 proof over executable model + differential correspondence (C harness vs compiled Lean driver) + shadow-interval oracle")
 MODULE = "IwModel.Props.C10"
-THEOREMS = []
+THEOREMS = ["IwModel.C10." + n for n in (
+    "alloc_fresh", "alloc_aligned", "alloc_len", "alloc_solid", "dealloc_guard", "guarded_of_overlap",
+    "dealloc_strict_refuses", "dealloc_exact", "realloc_inv")]
 
 
 def gen_invalid(r, cfg):
